@@ -4,3 +4,4 @@ import KitModel.Locks.FifoMap
 import KitModel.Locks.CMap
 import KitModel.Locks.Context
 import KitModel.Locks.OuterCancel
+import KitModel.Locks.Acceptor
